@@ -21,6 +21,8 @@ import os
 import time
 from concurrent.futures import ThreadPoolExecutor
 
+import c07_life
+import c07_wrap
 import common
 from common import (BuildError, REPO, ROOT, cxx_build, drv, ensure_repo_built, find_tbb_lib, first_diff, gen_write, log, sh)
 
@@ -56,7 +58,9 @@ def gen(ck, libs):
         raise BuildError("consts harness failed rc=%d %s" % (rc, err[-400:]))
     c = json.loads(out)
     ck.extra["generated_constants"] = c
-    gen_write("C07", "def initialBufferSize : Nat := %d\ndef tokenBits : Nat := %d\n" % (c["initialBufferSize"], c["tokenBits"]))
+    c["bufferCleanup"] = c07_life.gen_flags(ck)
+    gen_write("C07", "def initialBufferSize : Nat := %d\ndef tokenBits : Nat := %d\ndef bufferCleanup : Bool := %s\n" % (
+        c["initialBufferSize"], c["tokenBits"], "true" if c["bufferCleanup"] else "false"))
     n = c["initialBufferSize"]
     ck.oblige("gen:initial_buffer_size is a power of two", "generated", n >= 1 and n & (n - 1) == 0, c)
     ck.oblige("gen:tokenBits=64", "generated", c["tokenBits"] == 64, c)
@@ -412,6 +416,8 @@ def run_buf(ck, consts, libs):
         else:
             det = "harness rc=%d: %s" % (rc, err.strip()[-500:])
     ck.oblige("corr:input_buffer ring vs TokenBuf", "correspondence", ok, det)
+    if not crashed:
+        c07_wrap.run_wrap(ck, exe, seqs, impl, init)
 
     # implementation-side monitor (python mirror), per sequence
     bad = None
@@ -462,6 +468,8 @@ CLAUSES = {
     "order": "all serial_in_order filters process items in one common order",
     "live>limit": "never more than max_number_of_live_tokens items in flight",
     "return": "parallel_pipeline returns only after end of input and after every emitted item left the last filter",
+    "hb": "the hand-over of an item from filter to filter, and successive invocations of a serial filter, are ordered by happens-before "
+          "computed from the memory orders the code passes (E-SHIM runs, harness/shim/verif_hb.h)",
     "harness": "atomic counters inside the filter bodies (MON lines), crash or hang of the harness",
 }
 
@@ -537,7 +545,7 @@ def monitor_log(cfg, events, term, mons):
         w = m.split(None, 2)
         what = w[1] if len(w) > 1 else "?"
         clause = {"serial-overlap": "serial-overlap", "live>limit": "live>limit", "event-after-return": "return",
-                  "return-before-end-of-input": "return", "return-before-drain": "return"}.get(what, "harness")
+                  "return-before-end-of-input": "return", "return-before-drain": "return", "hb-race": "hb"}.get(what, "harness")
         flag(clause, m)
     if term != "ret":
         flag("harness" if term == "crash" else "return", "run ended with %r instead of returning" % term)
@@ -763,10 +771,11 @@ def try_config(exe, cfg, clause, tries, rng, procs=3):
 
 def minimise(exe, cfg, clause, rng, budget_runs=3000):
     """smaller config on which the property monitor `clause` still fails."""
-    best = try_config(exe, cfg, clause, 60, rng)
+    first = 60 if budget_runs >= 1000 else 12
+    best = try_config(exe, cfg, clause, first, rng)
     if best is None:
         return None
-    used = 60
+    used = first
     improved = True
     while improved and used < budget_runs:
         improved = False
@@ -788,8 +797,8 @@ def minimise(exe, cfg, clause, rng, budget_runs=3000):
             if 1 <= th < threads:
                 cands.append((modes, limit, items, th, seed, dm))
         for c in cands:
-            r = try_config(exe, c, clause, 40, rng)
-            used += 40
+            r = try_config(exe, c, clause, 40 if budget_runs >= 1000 else 6, rng)
+            used += 40 if budget_runs >= 1000 else 6
             if r is not None:
                 best, improved = r, True
                 break
@@ -876,14 +885,17 @@ def run_real(ck, libs):
         for c, r, ev in corr_bad[:3]:
             todo.append((c, None))
     done_keys = set()
-    for c, cl in todo[:4]:
+    any_hang = any(x[2] and x[2][-1] == "hang" for cl2 in fails for x in fails[cl2][:50])
+    for c, cl in todo[:2 if any_hang else 4]:
         if cl is None:
             r = try_config(exe, c, None, 150, ck.rng)
             if r is None:
                 continue
             cl = r[2][0]
             c = r[0]
-        best = minimise(exe, c, cl, ck.rng, budget_runs=2500 if ck.tier == "quick" else 8000)
+        # runs that do not return (watchdog / runaway guard) cost a harness process each: minimise them with a small budget
+        hangy = any(x[2] and x[2][-1] == "hang" for cl2 in fails for x in fails[cl2][:50])
+        best = minimise(exe, c, cl, ck.rng, budget_runs=(160 if hangy else 2500) if ck.tier == "quick" else (600 if hangy else 8000))
         if best is None:
             # not reproducible on re-run: report the observed log itself
             f = [x for x in fails.get(cl, []) if x[0] == c]
@@ -925,7 +937,9 @@ def parse_shim(out):
         elif l.startswith("sched "):
             sched = l[6:]
         elif l.startswith("stat "):
-            stat = dict(kv.split("=") for kv in l.split()[1:])
+            stat.update(dict(kv.split("=") for kv in l.split()[1:]))
+        elif l.startswith("MON "):
+            stat.setdefault("_mons", []).append(l)
         elif l == "end" or not l:
             continue
         elif seen_begin:
@@ -943,7 +957,7 @@ def run_shim_one(exe, c, schedule=None):
             break
     ev, sched, stat = parse_shim(out)
     term = "ret" if (ev and ev[-1] == "ret" and rc == 0) else ("deadlock" if rc == 3 else ("crash" if rc != 0 else None))
-    mons = []
+    mons = list(stat.pop("_mons", []))
     if rc == 3:
         mons.append("MON return-before-drain deadlock: every controlled thread is parked (lost wake-up / lost hand-off / step limit), stat %s" % stat)
     elif rc != 0:
@@ -1018,7 +1032,9 @@ def run_shim(ck):
                   len(corr_bad), len(batch), " ".join(shim_args(corr_bad[0][0])), corr_bad[0][1][2], corr_bad[0][1][0], corr_bad[0][1][1],
                   " / ".join(corr_bad[0][2])[:1200]))
     anyfail = [(cl, f) for cl, f in fails.items() if f]
-    ck.oblige("monitor:E-SHIM runs satisfy every clause of the property (once / order / serial-overlap / live<=limit / return after drain, no deadlock)",
+    ck.extra["shim_hb_ghost_accesses"] = sum(int(st.get("ghost", 0) or 0) for (_, _, _, _, st) in res)
+    ck.extra["shim_hb_sync_edges"] = sum(int(st.get("sync", 0) or 0) for (_, _, _, _, st) in res)
+    ck.oblige("monitor:E-SHIM runs satisfy every clause of the property (once / order / serial-overlap / live<=limit / return after drain, no deadlock; hand-overs ordered by happens-before)",
               "correspondence", not anyfail,
               "" if not anyfail else "; ".join("%s: %d run(s), first shim %s: %s" % (cl, len(f), " ".join(shim_args(f[0][0])), f[0][1]) for cl, f in anyfail)[:1800])
     # failing-input search: smallest failing (config, schedule) among neighbours of the first failure of each clause
@@ -1088,22 +1104,37 @@ def run(ck):
                "delay shapes (none, random spin, heavy-tailed, early-items-slow, sleep/yield), items carried as size_t ids (id 0 = null void*) "
                "or pointers. E-SHIM: the same mode sequences (length 1..4, 40 runs each; thorough 400) with limits 1..4,7, 0..13/20 items, "
                "parallelism 1..5,8, seeded numbers of scheduling points inside every filter body, seeded random controlled schedules with six "
-               "different preemption rates. distinct = (mode sequence, limit, min(items,3), threads>1) classes for runs; (operation, outcome class) for ring ops")
+               "different preemption rates. LIFE: for every mode sequence of length 1..3 (+ samples of length 4; thorough: all of length 4) three (thorough 12) "
+               "base configurations (limit 1..4, 1..5 items, parallelism 1..4); for each, EVERY k below the number of filter invocations: the k-th invocation "
+               "throws / the k-th invocation cancels the context, plus 4 external cancellations at seeded scheduling points and one run without fault, each under "
+               "E-SHIM (seeded schedule) and on real threads; items are a non-trivial 32-byte value. WRAP: ring sequences shifted to start at 2^64-d (d = 1,2,3, "
+               "array size, random < 700), 2^63-d and 2^32-2. distinct = (mode sequence, limit, min(items,3), threads>1) classes for runs; (operation, outcome class) for ring ops")
     ck.assumptions += [
         "model covers: the input_buffer ring exactly (array/array_size/low_token/high_token, grow, put, note-done, get_ordered_token), the "
         "input_tokens accounting (fetch_sub/fetch_add, recycling), end_of_input, and the put / note-done / recycle protocol of "
         "stage_task::execute_filter with one model step per lock region / RMW / atomic access, for any number of filters, items and tasks",
+        "life-cycle model (Model/C07Life.lean): on top of the protocol model, per stage_task its place in the dispatcher loop (cancellation check before "
+        "every execute, catch block, cancel -> finalize -> ~stage_task), the context's cancellation flag, filter bodies that throw at any invocation, "
+        "external cancellation at any moment, the ledger of create_token / destroy_token calls per token object, the return (wait_ctx == 0) and what "
+        "~pipeline does with parked items (flag bufferCleanup regenerated from the source); word-level model (Model/C07Wrap.lean): every ++ / - on "
+        "low_token / high_token / my_token wraps at 2^tokenBits",
         "NOT modelled: the task scheduler / arena (any task that exists may run at any time: schedules are universally quantified in the theorems), "
-        "exceptions and cancellation (stage_task::cancel / finalize paths), the thread-local end-of-input flag of parallel input filters "
-        "(modelled as the filter returning 'stop'), memory reclamation of tasks/buffers, weak-memory effects of the relaxed end_of_input accesses, "
-        "Token wrap-around at 2^64",
+        "the thread-local end-of-input flag of parallel input filters (modelled as the filter returning 'stop'), allocation failures inside the pipeline "
+        "(grow / spawn_stage_task / create_token throwing bad_alloc), exceptions thrown by token constructors or destructors, memory reclamation of "
+        "tasks/buffers, weak-memory effects of the relaxed end_of_input accesses (the hand-over of items is checked by the happens-before monitor on E-SHIM runs)",
+        "token objects are observable only for library-allocated tokens (token_helper<T,true>); the fault campaign therefore carries a non-trivial 32-byte "
+        "value; for pointer / small trivially copyable tokens create_token / destroy_token are the identity / no-ops with the same call structure",
         "the tie of the pipeline protocol model to the code is sampled: E-REAL observes only the filter-body events of the schedules that happen on "
         "this machine (the invisible steps are reconstructed by the validator); the ring model is tied by a white-box differential on generated "
         "operation sequences",
         "the model fuses the input filter's end-of-input return with the store end_of_input=true (the code stores after the body returned); the "
         "validator therefore treats the log position of an `ie -` event of a parallel input filter as a lower bound of the model step",
         "input_buffer::try_put_token with token < low_token is undefined in release builds (assertion only); the generator never produces it"]
-    ck.trusted += ["harness/c07/pure.cpp, harness/c07/real.cpp, harness/c07/shim.cpp, harness/c07/consts.cpp (observation of the real code)",
+    ck.trusted += ["harness/c07/pure.cpp, harness/c07/real.cpp, harness/c07/shim.cpp, harness/c07/life.cpp, harness/c07/consts.cpp (observation of the real code)",
+                   "checks/c07_life.py (translator of the bufferCleanup flag: text search for a finalize( call in the destructor path; fault campaign, ledger monitors, "
+                   "pass-hints for the validator), checks/c07_wrap.py (shifted sequences, translation-invariance monitor)",
+                   "lean/TbbVerif/Model/C07Life.lean driver driveLife (inserts invisible steps as late as possible; every state change goes through stepEv)",
+                   "harness/shim/verif_hb.h (happens-before recomputation over the E-SHIM log)",
                    "harness/shim/* (atomic shim + controlled scheduler; sequentially consistent executions only)",
                    "checks/c07.py monitors (python mirror of the token map; log monitors)",
                    "lean/TbbVerif/Model/C07.lean drivers driveBuf/drivePipe (trace validator inserts invisible steps, every state change goes through `step`)",
@@ -1128,12 +1159,16 @@ def run(ck):
     lap("real")
     run_shim(ck)
     lap("shim")
+    c07_life.run_life(ck, libs, consts["bufferCleanup"])
+    lap("life")
 
 
 # ---------------------------------------------------------------------------------------------
 def replay(ck, obj):
     r = obj["replay"]
     libs = tbb_libs()
+    if r.get("engine") == "E-PURE-WRAP":
+        return c07_wrap.replay_wrap(build_pure(libs), obj)
     if r.get("engine") == "E-PURE":
         exe = build_pure(libs)
         ops = []
@@ -1151,6 +1186,12 @@ def replay(ck, obj):
         return 1
     if r.get("engine") == "E-SHIM":
         return replay_shim(ck, obj)
+    if str(r.get("engine", "")).startswith("LIFE-"):
+        class _Q:
+            extra = {}
+            def oblige(self, *a, **k):
+                pass
+        return c07_life.replay_life(ck, obj, libs, c07_life.gen_flags(_Q()))
     exe = build_real(libs)
     cfg = tuple(r["config"])
     clause = r.get("monitor")
